@@ -50,7 +50,7 @@ for fid, prefix, props in FIXES:
         applied = r.returncode == 0
         os.remove(f"{wt}/_rev.diff")
         if not applied and fid == "D12":
-            sh(f"git -C {wt} checkout -- . && git -C {wt} reset -q")
+            sh(f"git -C {wt} reset --hard -q")
             # the later fix D13 rewrote the neighbouring line: remove the guard block textually
             pth = f"{wt}/gemclus/sparse/_base_sparse.py"
             src = open(pth).read()
